@@ -16,7 +16,7 @@ chk("C02", "lbfuzz", "Every zero-copy result (Next/Peek/Until/GetBytes vectors/S
 chk("C03", "lbfuzz", "Pool ledger (address -> issued/freed, capacity) asserted inside every pool Malloc/Free: double free, foreign free (caller memory), interior/wrong-capacity free, linked node in an already returned block; caller-owned slices are snapshotted and re-compared after every operation.",
     "Same programs and assumptions as C01; leaks are reported but are not violations (the property bounds returns from above).",
     "runtime monitoring: allocator ledger (instrumented pool) + caller-memory canaries")
-chk("C16", "lbfuzz", "Scripted io.Reader/io.Writer monitors (they know every byte they produced/accepted from a position-keyed PRF stream) under seeded random Reader/Writer call sequences on NewReader/NewWriter/NewIOReader/NewIOWriter; every returned byte, Len, error surfacing/mapping and the bytes offered to the sink across successive Flush calls are asserted.",
+chk("C16", "lbfuzz", "Scripted io.Reader/io.Writer monitors (they know every byte they produced/accepted from a position-keyed PRF stream) under seeded random Reader/Writer call sequences on NewReader/NewWriter/NewIOReader/NewIOWriter; every returned byte, Len, error surfacing/mapping and the bytes offered to the sink across successive Flush calls are asserted. The caller re-uses its slice right after ioWriter.Write; buffer-oracle hits (C01-C03) during an adapter program count as C16 violations.",
     "Sources/sinks stay inside the io.Reader/io.Writer contracts (no negative counts, short write => error); stand-in pool; buffer-level oracle failures inside adapter cases keep their C01-C03 tag.",
     "runtime monitoring: scripted source/sink monitors + reference stream model over seeded call sequences")
 chk("C04", "connmon", "Real TCP/unix connections between netpoll endpoints; the stream of each connection is PRF(seed, position), written with random Writer mixes and verified byte by byte by the receiver (handler or blocking reader) with random Reader mixes, socket-buffer sizes, reader stalls, hook-point jitter and (half of the trials) spurious EAGAIN at the sendmsg wrapper; end-of-stream only after exactly the flushed byte count.",
